@@ -99,6 +99,93 @@ func genOPT(r *Rng) *GenRR {
 	return g
 }
 
+// codecLine renders the generated field values in plan order for the Lean codec algebra; ok=false when the type's
+// body uses a primitive outside the algebra.
+func codecLine(pl *specPlan, g *GenRR) (string, bool) {
+	covered := map[string]bool{"unpackUint8": true, "unpackUint16": true, "unpackUint32": true, "unpackUint48": true, "unpackUint64": true,
+		"unpackDataA": true, "unpackDataAAAA": true, "unpackString": true, "UnpackDomainName": true, "unpackStringHex": true,
+		"unpackStringBase64": true, "unpackStringBase32": true, "unpackStringAny": true, "unpackStringOctet": true, "unpackStringTxt": true}
+	var out []string
+	for _, s := range pl.Steps {
+		if s.Codec == "earlyexit" {
+			continue
+		}
+		if !covered[s.Codec] || s.Cond != "" {
+			return "", false
+		}
+		v := g.Fields[s.Field]
+		hexOrDash := func(b []byte) string {
+			if len(b) == 0 {
+				return "-"
+			}
+			return hx(b)
+		}
+		switch g.Kinds[s.Field] {
+		case "uint":
+			out = append(out, fmt.Sprintf("n:%d", v.(uint64)))
+		case "name":
+			out = append(out, "t:"+hxs(presentLabels(v.([][]byte))))
+		case "txt":
+			ss := v.([][]byte)
+			if len(ss) == 0 {
+				out = append(out, "s:-")
+				break
+			}
+			var parts []string
+			for _, x := range ss {
+				if len(x) == 0 {
+					parts = append(parts, "~")
+				} else {
+					parts = append(parts, hx(x))
+				}
+			}
+			out = append(out, "s:"+strings.Join(parts, ","))
+		default: // str, octet, hex, b64, b32, any, ip
+			out = append(out, "b:"+hexOrDash(v.([]byte)))
+		}
+	}
+	return strings.Join(out, " "), true
+}
+
+// c01Codec: the regenerated pack / unpack bodies interpreted in Lean against the real record code, on wire-level values.
+func c01Codec(c *Ctx, g *GenRR) {
+	t := loadSpec()
+	pl := t.byCode[g.Type]
+	if pl == nil {
+		return
+	}
+	vals, ok := codecLine(pl, g)
+	if !ok {
+		c.Hit("codec:uncovered:" + pl.Type)
+		return
+	}
+	rr, off, err := dns.UnpackRR(g.Wire, 0)
+	if err != nil || off != len(g.Wire) {
+		return
+	}
+	rdHex := "-"
+	if len(g.Rdata) > 0 {
+		rdHex = hx(g.Rdata)
+	}
+	// unpack body: the model's values = the generator's values = (checkFields) the real decoder's values
+	implVals := vals
+	if d := checkFields(rr, g); d != "" {
+		implVals = "field-mismatch " + d
+	}
+	c.OpK("codec", fmt.Sprintf("codec.unpack %s %s", pl.Type, rdHex), strings.TrimSpace(implVals), len(g.Rdata) > 0, "codec-unpack:"+pl.Type)
+	// pack body: the model's octets = what the real packer writes for the decoded record
+	w2, err := packRRBytes(rr)
+	implRd := "pack-error"
+	if err == nil && len(w2) >= len(g.Wire)-len(g.Rdata) {
+		implRd = "-"
+		if rd := w2[len(g.Wire)-len(g.Rdata):]; len(rd) > 0 {
+			implRd = hx(rd)
+		}
+	}
+	c.OpK("codec", strings.TrimSpace(fmt.Sprintf("codec.pack %s %s", pl.Type, vals)), implRd, len(g.Rdata) > 0, "codec-pack:"+pl.Type)
+	c.Hit("codec:covered:" + pl.Type)
+}
+
 func runC01(c *Ctx) {
 	r := c.R
 	t := loadSpec()
@@ -108,7 +195,11 @@ func runC01(c *Ctx) {
 	per := c.Scale(150, 3000)
 	for _, typ := range types {
 		for i := 0; i < per; i++ {
-			c01RR(c, "rr", genRR(r, typ, r.Intn(3), r.Chance(40)))
+			g := genRR(r, typ, r.Intn(3), r.Chance(40))
+			c01RR(c, "rr", g)
+			if i%3 == 0 {
+				c01Codec(c, g)
+			}
 		}
 	}
 	// unknown / private-range types as RFC 3597
